@@ -2,6 +2,8 @@
     Transcribes  PaddedStringDisplay::fmt          (/repo/src/style.rs:734-769),
                  the width/None split of a placeholder (src/style.rs:365-384),
                  WideElement::Message expansion        (src/style.rs:437-482, arm 461-480).
+                 a placeholder with a `.STYLE` part: s.apply_to(..) around the field
+                 (HEAD 7d42cff src/style.rs:378-385; [styled_field_line], the style's texts are data).
     Line numbers refer to /repo at commit 96a75c4; at HEAD 7d42cff every one of them is 4 higher
     (fix 6ff82af inserted 2 lines at style.rs:157 and 2 at :277; the code below :280 is unchanged:
     PaddedStringDisplay::fmt is style.rs:738-773, WideElement::expand 447-486 today).
@@ -104,6 +106,22 @@ Definition field_line (pre post s : str) (w : option N) (a : align) (tr : bool) 
               end
   end.
 
+(** The same line when the placeholder carries a `.STYLE` part:  pre{key:<align><width>[!].STYLE}post.
+    format_state writes `s.apply_to(padded)` resp. `s.apply_to(&buf)` (style.rs:378-380 / :385 at
+    HEAD 7d42cff): console::StyledObject's Display (console-0.15.11 src/utils.rs:623-663) writes the
+    escape sequences of the style, then the VALUE - for a sized field the whole padded / truncated
+    field, blanks included -, then the reset sequence ESC[0m iff it wrote any sequence.  The style
+    value is not modelled: [sty = Some (spre, spost)] are those two texts, DATA computed by the
+    harness with the console crate (both empty when colours are off or the style string sets no
+    attribute); [sty = None]: no `.STYLE` part.  An EMPTY content is no special case: the field is
+    still padded to the width (seeded defect C12-6 skipped it). *)
+Definition styled_field_line (pre post s : str) (w : option N) (a : align) (tr : bool)
+                             (sty : option (str * str)) : outcome str :=
+  match (match w with None => Ok s | Some w => padded s w a tr end) with
+  | Ok f => Ok (pre ++ (match sty with Some (spre, spost) => spre ++ f ++ spost | None => f end) ++ post)
+  | Panic k => Panic k
+  end.
+
 (* char::is_whitespace = Unicode White_Space *)
 Definition is_ws (c : N) : bool :=
   ((9 <=? c) && (c <=? 13)) || (c =? 32) || (c =? 133) || (c =? 160) || (c =? 5760)
@@ -174,7 +192,10 @@ Inductive c12case :=
 | CField (pre post content : list (N * N * N)) (w : option N) (a : align) (tr : bool)
          (observed : option (list (N * N)))              (* None: the draw panicked *)
 | CWide (pre post msg : list (N * N * N)) (a : align) (tw : N)
-        (observed : option (list (N * N))).
+        (observed : option (list (N * N)))
+| CStyled (pre post content : list (N * N * N)) (w : option N) (a : align) (tr : bool)
+          (spre spost : list (N * N * N))                (* the style's escape texts (console crate) *)
+          (observed : option (list (N * N))).
 
 Definition obs_eqb (m : outcome str) (o : option (list (N * N))) : bool :=
   match m, o with
@@ -187,4 +208,6 @@ Definition c12_check (c : c12case) : bool :=
   match c with
   | CField pre post s w a tr o => obs_eqb (field_line (dec3 pre) (dec3 post) (dec3 s) w a tr) o
   | CWide pre post m a tw o => obs_eqb (wide_line (dec3 pre) (dec3 post) (dec3 m) a tw) o
+  | CStyled pre post s w a tr spre spost o =>
+      obs_eqb (styled_field_line (dec3 pre) (dec3 post) (dec3 s) w a tr (Some (dec3 spre, dec3 spost))) o
   end.
